@@ -51,3 +51,32 @@ Theorem C05_kzg10_length_mismatch_refused :
     batch_check vk cs zs vs pfs tape = Err EIncorrectInputLength.
 Proof. exact @batch_check_lengths. Qed.
 Print Assumptions C05_kzg10_length_mismatch_refused.
+
+(* the trait-level batch verifier of Marlin: one proof per point label (a different count is refused), and the
+   decision is KZG10's batch equation over the point-label groups, where each group contributes exactly the
+   combined commitment and value that the single-point `check` of that group tests (gs_cons / group_is_single_check):
+   with the theorems above, all-true query sets are accepted and a false group is rejected *)
+From PC Require Import Base.OrdMap Schemes.LC Schemes.Marlin Proofs.MarlinBatch.
+Theorem C05_marlin_batch_is_kzg_batch_of_groups :
+  forall (FO : FieldOps) vk cs qs ev pfs chal vtape b rest dr,
+    mbatch_check vk cs qs ev pfs chal vtape = Ok (b, rest, dr) ->
+    exists ccs zs vs,
+      groups_spec vk (comm_map cs) (evals_map ev) (group_queries qs) chal ccs zs vs rest /\
+      length pfs = length zs /\
+      KZG10.batch_check (mvk_vk vk) ccs zs vs pfs vtape = Ok (b, dr).
+Proof. exact @mbatch_check_is_batch_of_groups. Qed.
+Print Assumptions C05_marlin_batch_is_kzg_batch_of_groups.
+
+Theorem C05_marlin_group_is_single_check :
+  forall (FO : FieldOps) vk cs' vs' chal c v chal1 z pf,
+    accumulate vk cs' vs' chal 0 0 = Ok (c, v, chal1) ->
+    mcheck vk cs' z vs' pf chal = (do b <- KZG10.check (mvk_vk vk) c z v pf; Ok (b, chal1)).
+Proof. exact @group_is_single_check. Qed.
+Print Assumptions C05_marlin_group_is_single_check.
+
+Theorem C05_marlin_batch_proof_count :
+  forall (FO : FieldOps) vk cs qs ev pfs chal vtape ccs zs vs rest,
+    combine_groups vk (comm_map cs) (evals_map ev) (group_queries qs) chal = Ok (ccs, zs, vs, rest) ->
+    length pfs <> length zs -> mbatch_check vk cs qs ev pfs chal vtape = Panic.
+Proof. exact @mbatch_check_proof_count. Qed.
+Print Assumptions C05_marlin_batch_proof_count.
